@@ -15,6 +15,7 @@ from ..core import AnalysisError
 from ..core import RuleResult
 from ..core import norm
 from ..flow import RETURN
+from ..model import own_nodes
 from ..taint import BLK
 from ..taint import NS
 from ..taint import O
@@ -260,7 +261,85 @@ def _inl(rule):
 
 
 INLINED_VIEW = False
-RULES_PLAIN = [rule_sinks]
+def _transparent_decorator(model, m, dec):
+    """Is `dec` a decorator of the repository whose wrapper always returns
+    the result of calling the wrapped function?  -> (bool, reason)"""
+    d = dec.func if isinstance(dec, ast.Call) else dec
+    res = model.resolve_name_expr(m, d) if isinstance(
+        d, (ast.Name, ast.Attribute)) else None
+    if not res or res[0] != 'func':
+        return False, f'`{norm(dec)}` is not a function of the package'
+    fi = res[1]
+    ps = fi.params()
+    if not ps:
+        return False, f'{fi.where} takes no function'
+    wrapped = ps[0]
+    inner = [n for n in fi.node.body if isinstance(n, ast.FunctionDef)]
+    if not inner:
+        # returns the function itself (registration decorators)
+        rets = [n for n in own_nodes(fi.node) if isinstance(n, ast.Return)]
+        if rets and all(isinstance(x.value, ast.Name) and
+                        x.value.id == wrapped for x in rets):
+            return True, ''
+        return False, f'{fi.where}: shape not understood'
+    for w in inner:
+        wfi = w._dt_func
+        for x in own_nodes(w):
+            if not isinstance(x, ast.Return) or x.value is None:
+                continue
+            vals = [x.value]
+            if isinstance(x.value, ast.Name):
+                vals = [dd for dd in model.local_defs(wfi, x.value.id)]
+            for v in vals:
+                if not (isinstance(v, ast.Call) and isinstance(
+                        v.func, ast.Name) and v.func.id == wrapped):
+                    return False, (
+                        f'the wrapper of {fi.where} can return '
+                        f'`{norm(x.value)}`, which is not the result of '
+                        'calling the wrapped function for this argument')
+    return True, ''
+
+
+def rule_table_decorators(model):
+    r = RuleResult('C04.R4', 'a modifier or special format answers with the '
+                   'result its own body computes for the value it is given: '
+                   'no decorator stands between the dispatch tables and the '
+                   'function whose wrapper can return anything else (a memo '
+                   'keyed by ==/hash hands the plain result cached for "x" '
+                   'to TaintedString("x"): equal, same hash)')
+    from .. import tables
+    m = model.module('DT_Var')
+    n = 0
+    seen = set()
+    for tname in ('modifiers', 'special_formats'):
+        ents = tables.func_entries(model, m, tname)
+        if not ents:
+            raise AnalysisError(f'C04.R4: table DT_Var.{tname} not '
+                                'understood')
+        for key, expr, res in ents:
+            if not res or res[0] != 'func' or id(res[1]) in seen:
+                continue
+            fi = res[1]
+            seen.add(id(fi))
+            n += 1
+            decs = fi.node.decorator_list
+            r.instance(fi.where, 'def ' + fi.name,
+                       f'{len(decs)} decorator(s)')
+            for dec in decs:
+                ok, why = _transparent_decorator(model, fi.module, dec)
+                if not ok:
+                    r.finding(fi.where, f'@{norm(dec)} def {fi.name}',
+                              f'{fi.name} is reached through the decorator '
+                              f'`{norm(dec)}`: {why}; a tainted value can '
+                              'get the result computed for an equal plain '
+                              'string, with the taint mark (and the final '
+                              'escaping) lost', node=fi.node, ctx=fi)
+    if n < 12:
+        raise AnalysisError(f'C04.R4: only {n} table functions resolved')
+    return r
+
+
+RULES_PLAIN = [rule_sinks, rule_table_decorators]
 RULES = [_inl(r_) for r_ in RULES_PLAIN] if INLINED_VIEW else RULES_PLAIN
 EXPLANATION = (
     'Inter-procedural, path-sensitive taint analysis of the dtml-var '
